@@ -113,11 +113,14 @@
 //@after 1 if idx{
     proof {
         assert(c as int == it.index@);
-        assert forall|x: u32| in_block(x as int, kb) && hfree(*helper, x as int) && ((unused_base ^ x) as u8 as int) < it.index@ + 1 implies
-            st_check(#[trigger] self.states@[x as int]) == (unused_base ^ x) as u8 by {
-            lemma_sanitise_bits(unused_base, x, c);
-            assert(x as int / 256 == kb && unused_base as int / 256 == kb);
-            if (unused_base ^ x) as u8 == c { assert(x == idx); } else { assert(x != idx); assert(self.states@[x as int] == st_b[x as int]); }
+        // guarded: if the slot of this label is free and did not get its CHECK, the loop invariant (not this hint) is what fails
+        if hfree(*helper, idx as int) ==> st_check(self.states@[idx as int]) == c {
+            assert forall|x: u32| in_block(x as int, kb) && hfree(*helper, x as int) && ((unused_base ^ x) as u8 as int) < it.index@ + 1 implies
+                st_check(#[trigger] self.states@[x as int]) == (unused_base ^ x) as u8 by {
+                lemma_sanitise_bits(unused_base, x, c);
+                assert(x as int / 256 == kb && unused_base as int / 256 == kb);
+                if (unused_base ^ x) as u8 == c { assert(x == idx); } else { assert(x != idx); assert(self.states@[x as int] == st_b[x as int]); }
+            }
         }
         assert forall|x: int| 0 <= x < old(self).states@.len() && !(in_block(x, kb) && hfree(*helper, x)) implies
             st_check(#[trigger] self.states@[x]) == st_check(old(self).states@[x]) by {
@@ -467,7 +470,10 @@
             if placed.contains(c) { let j = choose|j: int| 0 <= j < j0 && *rem[j].0 == c; assert(*rem[j].0 != *rem[j0].0); }
         }
         lemma_step_child(*nfa, states_before, map_before, inv, bowner, done, sid, base@, placed, c);
-        lemma_bwb_step(*nfa, states_before, self.states@, map_before, state_id_map@, inv, bowner, done, sid, base@, placed, c);
+        // guarded: if the placement is not the expected one the loop invariant (not this hint) is what fails
+        if bwb_step_rel(*nfa, states_before, self.states@, map_before, state_id_map@, inv, sid, base@, c) {
+            lemma_bwb_step(*nfa, states_before, self.states@, map_before, state_id_map@, inv, bowner, done, sid, base@, placed, c);
+        }
         lemma_glue_index(h_before, helper, inv, bowner, y, child_id as int);
         lemma_closed_frame(states_before, self.states@, inv, inv.insert(y, child_id as int), bowner, bowner, h_lo(helper));
         inv = inv.insert(y, child_id as int);
